@@ -341,6 +341,56 @@ func TestDrive_C15(t *testing.T) {
 	}
 	w.Add(func(id int) string { return fmt.Sprintf("CaseStress %d 5 %d %d", id, rounds, bad3) },
 		map[string]any{"scenario": "Cancel() from OnHedge while the first attempt's result is already pending; bad = rounds that did not report ErrExecutionCanceled", "rounds": rounds, "bad": bad3}, true, "cancel-vs-pending-hedge-result")
+	// 5. the completion listener is still running: Done is open, IsDone is false and Get blocks until it has returned
+	bad4, rounds4 := 0, 0
+	for _, entry := range asyncEntries {
+		for _, fails := range []bool{false, true} {
+			rounds4++
+			synctest.Test(t, func(t *testing.T) {
+				gate := make(chan struct{})
+				entered := false
+				ex := failsafe.NewExecutor[int](retrypolicy.Builder[int]().WithMaxRetries(0).Build()).
+					OnDone(func(failsafe.ExecutionDoneEvent[int]) { entered = true; <-gate })
+				fn := func() (int, error) {
+					if fails {
+						return 0, errors.New("fail")
+					}
+					return 1, nil
+				}
+				var ar failsafe.ExecutionResult[int]
+				switch entry {
+				case "GetAsync":
+					ar = ex.GetAsync(fn)
+				case "GetWithExecutionAsync":
+					ar = ex.GetWithExecutionAsync(func(failsafe.Execution[int]) (int, error) { return fn() })
+				case "RunAsync":
+					ar = ex.RunAsync(func() error { _, e := fn(); return e })
+				default:
+					ar = ex.RunWithExecutionAsync(func(failsafe.Execution[int]) error { _, e := fn(); return e })
+				}
+				got := false
+				go func() { ar.Get(); got = true }()
+				synctest.Wait() // everything is blocked: the listener on its gate, the reader in Get
+				open := true
+				select {
+				case <-ar.Done():
+					open = false
+				default:
+				}
+				if !entered || ar.IsDone() || !open || got {
+					bad4++
+				}
+				close(gate)
+				<-ar.Done()
+				synctest.Wait()
+				if !ar.IsDone() || !got {
+					bad4++
+				}
+			})
+		}
+	}
+	w.Add(func(id int) string { return fmt.Sprintf("CaseStress %d 6 %d %d", id, rounds4, bad4) },
+		map[string]any{"scenario": "the executor's OnDone listener blocks on a gate: meanwhile Done must be open, IsDone false and Get blocked (all four async entry points, success and failure); bad = rounds in which that did not hold", "rounds": rounds4, "bad": bad4}, true, "done-after-listeners")
 	w.Stat(fmt.Sprintf("stress_trials=%d", 2*trials))
 	w.Close("(1) every scenario is run through a sync entry point and through the matching async entry point (result read with Get), then re-run asynchronously with ExecutionResult.Cancel() fired at instants taken from the run's own event times (+-1ns, midpoints); complete logs compared with the model; (2) the future protocol with 1-16 concurrent readers (Get / Result+Error / Done then Get) arriving before and around completion, for all four async entry points, successful and failing executions; (3) real-time stress of the Cancel-vs-InitializeRetry window and of the IsDone-vs-Done window. Non-trivial = a retry or a reported cancellation occurred, two or more readers, or a stress batch; distinct by inputs.", nil)
 }
